@@ -140,6 +140,10 @@ pub struct Inner {
     pub skipped_by_guard: u64,
     pub harness_errors: Vec<String>,
     pub tap_subs: Vec<u16>,
+    /// probe drivers by id (for cross-subscription actions)
+    pub drivers: Vec<Option<Arc<dyn SinkDriver>>>,
+    /// per subscription tag: how many of its own steps / sends are on the stack right now
+    pub busy: Vec<u32>,
 }
 
 pub struct World {
@@ -163,6 +167,8 @@ impl World {
                 skipped_by_guard: 0,
                 harness_errors: vec![],
                 tap_subs: vec![0; 256],
+                drivers: vec![],
+                busy: vec![0; 8],
             }),
         })
     }
@@ -238,6 +244,7 @@ impl World {
         }
         let mut g = self.lock();
         g.errs.clear();
+        g.drivers.clear();
         g.stack = vec![];
         History {
             log: std::mem::take(&mut g.log),
@@ -564,6 +571,24 @@ impl<T: ToVal + Send + Sync + 'static> Probe<T> {
                         me.do_send(sub, SendKind::Pull, true);
                         me.do_send(sub, SendKind::Error, true);
                     }
+                    React::PullOther => {
+                        // only while the other subscription is idle (nothing of its own on the stack), so
+                        // that its solo run can reproduce the action as a top-level Pull
+                        let other = {
+                            let mut g = me.world.lock();
+                            let n = g.drivers.len();
+                            let o = (me.id as usize + 1) % n.max(1);
+                            if n >= 2 && g.busy.get(o).copied().unwrap_or(0) == 0 {
+                                g.drivers[o].clone()
+                            } else {
+                                g.skipped_by_guard += 1;
+                                None
+                            }
+                        };
+                        if let Some(o) = other {
+                            o.send(SendKind::Pull);
+                        }
+                    }
                 }
                 me.world.exit(h);
             })
@@ -610,7 +635,22 @@ impl<T: ToVal + Send + Sync + 'static> Probe<T> {
             }
         };
         let h = self.world.enter(Site::SinkSend { sink: self.id, sub: sub as u16, msg: m });
+        // whatever this send causes belongs to this probe's subscription
+        let prev = {
+            let mut g = self.world.lock();
+            if let Some(b) = g.busy.get_mut(self.id as usize) {
+                *b += 1;
+            }
+            std::mem::replace(&mut g.cur_tag, self.id)
+        };
         tb(msg);
+        {
+            let mut g = self.world.lock();
+            g.cur_tag = prev;
+            if let Some(b) = g.busy.get_mut(self.id as usize) {
+                *b = b.saturating_sub(1);
+            }
+        }
         self.world.exit(h);
     }
 
@@ -1003,6 +1043,20 @@ pub fn run(sc: &Scenario) -> History {
         })
         .collect();
 
+    {
+        let mut g = world.lock();
+        g.drivers = probes
+            .iter()
+            .map(|p| -> Option<Arc<dyn SinkDriver>> {
+                Some(match p {
+                    AnyProbe::I(p) => Arc::clone(p) as Arc<dyn SinkDriver>,
+                    AnyProbe::T1(p) => Arc::clone(p) as Arc<dyn SinkDriver>,
+                    AnyProbe::T2(p) => Arc::clone(p) as Arc<dyn SinkDriver>,
+                    AnyProbe::T3(p) => Arc::clone(p) as Arc<dyn SinkDriver>,
+                })
+            })
+            .collect();
+    }
     let attach = |s: usize| match (&built.root, &probes[s]) {
         (Root::I(src), AnyProbe::I(p)) => src(Message::Handshake(p.sink())),
         (Root::T1(src), AnyProbe::T1(p)) => src(Message::Handshake(p.sink())),
@@ -1017,6 +1071,12 @@ pub fn run(sc: &Scenario) -> History {
             g.cur_tag = tag;
             g.stack.clear();
             g.log.push(Ev::Step { k, tag });
+            for b in g.busy.iter_mut() {
+                *b = 0;
+            }
+            if let Some(b) = g.busy.get_mut(tag as usize) {
+                *b = 1;
+            }
         }
         take_last_panic();
         let r = panic::catch_unwind(AssertUnwindSafe(f));
